@@ -78,12 +78,42 @@ def kani_group(pid, gname, group, harnesses, jobs, workdir):
     if group.get("cbmc_args"):
         cmd += ["--cbmc-args"] + group["cbmc_args"]
     t0 = time.time()
-    mem_kb = int(group.get("mem_gb", 12)) * 1024 * 1024
-    shell = "ulimit -v %d; exec %s" % (mem_kb * max(1, jobs), " ".join("'%s'" % c for c in cmd))
-    # note: ulimit -v applies per process; each cbmc child inherits the same cap
-    shell = "ulimit -v %d; exec %s" % (mem_kb, " ".join("'%s'" % c for c in cmd))
+    # memory guard: CBMC is memory-bound here (no swap). A `ulimit -v` on cargo-kani would also hit
+    # kani-compiler (it reserves a lot of address space), so a watchdog kills any of OUR cbmc
+    # processes whose resident set passes the cap; Kani then reports no result for that harness and
+    # it is classified inconclusive.
+    import threading
+    cap_kb = int(group.get("mem_gb", 12)) * 1024 * 1024
+    stop = threading.Event()
+    killed = []
+
+    def watchdog(pgid_holder):
+        while not stop.wait(5.0):
+            try:
+                out = subprocess.run(["ps", "-eo", "pid,pgid,rss,comm"], capture_output=True, text=True).stdout
+            except Exception:
+                continue
+            for line in out.split("\n")[1:]:
+                f = line.split()
+                if len(f) == 4 and f[3].startswith("cbmc") and pgid_holder and f[1] == str(pgid_holder[0]) and int(f[2]) > cap_kb:
+                    try:
+                        os.kill(int(f[0]), 9)
+                        killed.append(int(f[0]))
+                    except Exception:
+                        pass
+
+    holder = []
     with open(out_log, "w") as lf:
-        p = subprocess.run(["bash", "-c", shell], cwd=KANI_DIR, env=ENV_BASE, stdout=lf, stderr=subprocess.STDOUT)
+        proc = subprocess.Popen(cmd, cwd=KANI_DIR, env=ENV_BASE, stdout=lf, stderr=subprocess.STDOUT, start_new_session=True)
+        holder.append(os.getpgid(proc.pid))
+        th = threading.Thread(target=watchdog, args=(holder,), daemon=True)
+        th.start()
+        proc.wait()
+        stop.set()
+
+    class _P:
+        returncode = proc.returncode
+    p = _P()
     wall = time.time() - t0
     res = {}
     logtxt = open(out_log, errors="replace").read()
@@ -115,8 +145,8 @@ def kani_group(pid, gname, group, harnesses, jobs, workdir):
                                "cat": c.get("category")} for c in failed],
             "undetermined": len(undet),
             "unwinding_failures": len(unw),
-            "covers_satisfied": pd.get("satisfied", 0),
-            "covers_unsat": pd.get("unsatisfiable", 0),
+            "covers_satisfied": pd.get("satisfied") or 0,
+            "covers_unsat": pd.get("unsatisfiable") or 0,
             "solver_s": (stats.get(hid) or {}).get("runtime_solver_s", 0.0),
             "symex_s": (stats.get(hid) or {}).get("runtime_symex_s", 0.0),
             "mangled": meta.get(hid, {}).get("mangled_name"),
@@ -248,7 +278,12 @@ def main():
     # ---- engine M ----
     if plan.get("smt"):
         import mirsmt_run
-        mres = mirsmt_run.run(pid, a.tier, plan["smt"], workdir, log)
+        try:
+            mres = mirsmt_run.run(pid, a.tier, plan["smt"], workdir, log)
+        except Exception as e:
+            import traceback
+            traceback.print_exc()
+            mres = {"results": {"m::engine": {"status": "inconclusive", "detail": "engine M failed: %r" % (e,)}}, "evidence": {}}
         for k, v in mres["results"].items():
             results[k] = v
         extra_evidence.update(mres.get("evidence", {}))
@@ -308,9 +343,9 @@ def main():
             "queries_total": len(results),
             "status_counts": status_counts,
             "solver": plan.get("solver", "CBMC 6.11.0 + CaDiCaL via Kani 0.68.0"),
-            "solver_time_s": round(sum(r.get("solver_s", 0.0) for r in results.values()), 2),
-            "symex_time_s": round(sum(r.get("symex_s", 0.0) for r in results.values()), 2),
-            "covers_satisfied": sum(r.get("covers_satisfied", 0) for r in results.values()),
+            "solver_time_s": round(sum((r.get("solver_s") or 0.0) for r in results.values()), 2),
+            "symex_time_s": round(sum((r.get("symex_s") or 0.0) for r in results.values()), 2),
+            "covers_satisfied": sum((r.get("covers_satisfied") or 0) for r in results.values()),
             "repo_head": head,
             "repo_tree_hash": tree,
             "only_filter": a.only,
